@@ -20,6 +20,9 @@ FIXED = [
     ("C15", "499e0dc", "a leading minus on a column or function call was ignored (`-size` printed the size)", ["neg-column"]),
     ("C15", "5e1797f", "a negative integer literal compared with an integer value was read as 0 (`where -size < -13` matched every file)", ["neg-column"]),
     ("C02", "c323f3c", "a quoted literal that spells a column or function name was looked up as one: `name = 'size'` compared with the size column, `ext = 'bin'` was a parse error (BIN without brackets), `name = 'name'` matched everything", ["reserved-literals"]),
+    ("C03", "8abda57", "`not size > 100` was evaluated as `size < 100` (Op::negate mirrored the operator instead of complementing it), losing entries equal to the literal", ["not-gt-boundary", "not-gte-boundary"]),
+    ("C03", "3dc60d5", "`not (A and B)` negated the comparisons but kept AND (no De Morgan swap)", ["not-and", "not-or", "double-not"]),
+    ("C03", "e50e1db", "`x not between a and b` was built as `x <= a or x >= b`, so entries equal to a bound matched both BETWEEN and NOT BETWEEN", ["not-between"]),
 ]
 
 OPEN = [
